@@ -12,6 +12,7 @@ import (
 	"sort"
 	"strings"
 	"sync"
+	"time"
 
 	"github.com/tonkeeper/tongo/utils"
 
@@ -169,6 +170,8 @@ func genC09(c *Ctx) {
 	}
 	ab := genTlAllBits()
 	s.progs = append(s.progs, &c09Prog{kind: "tl", pkg: "tlbits", text: ab.text(), tl: ab})
+	th := genTlThresholds()
+	s.progs = append(s.progs, &c09Prog{kind: "tl", pkg: "tlvec", text: th.text(), tl: th})
 	for i := 0; i < nExp; i++ {
 		sc := genTlExplore(c.R.Fork(uint64(5000+i)), 2+c.R.Intn(6))
 		s.progs = append(s.progs, &c09Prog{kind: "tl", pkg: fmt.Sprintf("tlx%d", i), text: sc.text(), tl: sc, explore: sc.explore})
@@ -412,6 +415,13 @@ func genC09(c *Ctx) {
 		r := c.R.Fork(uint64(20000 + pi))
 		if p.kind == "tl" {
 			c09TlValues(c, s, p, r)
+			if p.pkg == "tlvec" {
+				t0 := time.Now()
+				c09TlThresholds(c, s, p, r)
+				if os.Getenv("VERIF_C09_DEBUG") != "" {
+					fmt.Fprintf(os.Stderr, "thresholds: %v\n", time.Since(t0))
+				}
+			}
 		} else {
 			c09TlbValues(c, s, p, r.U64())
 		}
@@ -862,4 +872,134 @@ func c09Tools() chan []c09ToolResult {
 		ch <- out
 	}()
 	return ch
+}
+
+// c09TlThresholds: values across the runtime's thresholds through the compiled
+// program `tlvec` (see genTlThresholds) and through the wire-format spec.
+func c09TlThresholds(c *Ctx, s *c09Session, p *c09Prog, r *prng.R) {
+	sc := p.tl
+	g := &tlValGen{r: r, s: sc, big: 0, maxV: 3}
+	counts := []int{4095, 4096, 4097, 4098 + r.Intn(3000), 8192, 8193}
+	lens := []int{253, 254, 255, 4095, 4096, 4097, 4098 + r.Intn(4000), 65535, 65536}
+	pick := func(all []int, k, quick int) []int {
+		if c.Thorough() {
+			return all
+		}
+		// quick: one value just above the threshold per kind (what crosses it), further ones rotating
+		out := []int{all[2+(int(c.Seed)+k)%2]}
+		for i := 1; i < quick; i++ {
+			out = append(out, all[(int(c.Seed)+k+i)%len(all)])
+		}
+		return out
+	}
+	emit := func(target sx.V, types sx.V, funcs sx.V, v sx.V, junk []byte, class string) sx.V {
+		in := sx.L(types, funcs, target, v, sx.Bytes(junk))
+		ans := s.ask(sx.L(sx.A("tl.m"), sx.A(p.pkg), sx.A(c09TargetGoType(target)), v, sx.Bytes(junk)))
+		c09Cache["c09.tl "+in.String()] = ans
+		c.Emit("c09.tl", in, class)
+		delete(c09Cache, "c09.tl "+in.String())
+		if ans.K == sx.KL && len(ans.List) == 3 {
+			if ans.List[1].String() != v.String() || ans.List[2].K != sx.KN || ans.List[2].I() != len(junk) {
+				c.Fail("c09.tl", in, "c09-tl-roundtrip", "UnmarshalTL(MarshalTL(v) ++ junk) does not return v and leave the junk: "+trunc(ans.List[1].String(), 120))
+			}
+		} else {
+			c.Fail("c09.tl", in, "c09-tl-driver", "the compiled code answered "+trunc(ans.String(), 200))
+		}
+		return ans
+	}
+	rec := func(fs ...sx.V) sx.V { return sx.L(append([]sx.V{sx.A("r"), sx.A("_")}, fs...)...) }
+	fld := func(n string, v sx.V) sx.V { return sx.L(sx.A(n), v) }
+	typesOf := func(res string) sx.V {
+		t, _ := c09SubSchema(p, sc.closure(nil, []string{res, "liteServer.Error"}))
+		return t
+	}
+	// 1. vectors of every element kind
+	big := map[string]sx.V{}
+	for k, vk := range c09VecKinds {
+		res := "x1.Vec" + vk.name
+		cs := counts
+		if vk.ty.k == "bytes" || vk.ty.k == "string" {
+			cs = []int{4095, 4096, 4097, 4098 + r.Intn(50)}
+		}
+		for _, n := range pick(cs, k, 1) {
+			v := rec(fld("V", g.bigVector(vk.ty, n)), fld("Tail", sx.N(0xdeadbeef)))
+			emit(sx.L(sx.A("bare"), sx.Str("x1.vec"+vk.name)), typesOf(res), sx.L(), v, r.Bytes(1+r.Intn(7)), fmt.Sprintf("tl|threshold|vector-%s|%s", strings.ToLower(vk.name), c09CountClass(n)))
+			big[res] = v
+		}
+	}
+	for _, n := range pick(counts, 3, 1) {
+		v := rec(fld("Mode", sx.N(8)), fld("V", g.bigVector(c09VecKinds[1].ty, n)), fld("Tail", sx.N(7)))
+		emit(sx.L(sx.A("bare"), sx.Str("x1.vecOpt")), typesOf("x1.VecOpt"), sx.L(), v, []byte{1, 2, 3}, "tl|threshold|optional-vector|"+c09CountClass(n))
+	}
+	// 2. byte strings
+	for _, n := range pick(lens, 3, 2) {
+		v := rec(fld("Data", sx.Bytes(r.Bytes(n))), fld("S", sx.Bytes(r.Bytes(lens[(n+1)%len(lens)]))), fld("Tail", sx.N(0x01020304)))
+		emit(sx.L(sx.A("bare"), sx.Str("x1.blob")), typesOf("x1.Blob"), sx.L(), v, r.Bytes(1+r.Intn(5)), "tl|threshold|bytes|"+c09CountClass(n))
+		big["x1.Blob"] = v
+	}
+	// 3. nesting
+	{
+		v := rec(fld("A", sx.N(1)))
+		for i := 1; i < c09ChainDepth; i++ {
+			v = rec(fld("C", v), fld("T", sx.N(uint64(i))))
+		}
+		last := fmt.Sprintf("x1.n%d", c09ChainDepth-1)
+		emit(sx.L(sx.A("bare"), sx.Str(last)), typesOf(fmt.Sprintf("x1.N%d", c09ChainDepth-1)), sx.L(), v, []byte{9}, fmt.Sprintf("tl|threshold|nesting-%d", c09ChainDepth))
+	}
+	// 4. requests carrying such values, responses made of them: whole, and cut inside the data
+	for fi, f := range sc.funcs {
+		keep := sc.closure(f.fields, []string{f.res, "liteServer.Error"})
+		types, _ := c09SubSchema(p, keep)
+		funcs := sx.L(tlx.DeclSx(p.funcs[fi]))
+		var rv sx.V = sx.A("none")
+		switch f.name {
+		case "x1.getVecLeaf":
+			rv = rec(fld("N", sx.N(5)))
+		case "x1.sendVec":
+			rv = rec(fld("V", g.bigVector(c09VecKinds[1].ty, counts[2])), fld("Tail", sx.N(3)))
+		case "x1.sendBlob":
+			rv = rec(fld("Data", sx.Bytes(r.Bytes(lens[5]))), fld("Tail", sx.N(3)))
+		}
+		resV, ok := big[f.res]
+		if !ok {
+			resV = rec(fld("A", sx.N(1)))
+		}
+		d := sc.ctorsOf(f.res)[0]
+		a := s.ask(sx.L(sx.A("tl.m"), sx.A(p.pkg), sx.A(c09GoTypeOf(sc, &d)), resV, sx.Bytes(nil)))
+		if a.K != sx.KL || len(a.List) != 3 || a.List[0].K != sx.KBytes {
+			continue
+		}
+		full := append([]byte{byte(d.id), byte(d.id >> 8), byte(d.id >> 16), byte(d.id >> 24)}, a.List[0].Bytes...)
+		resps := map[string][]byte{"whole": full}
+		if len(full) > 5000 {
+			resps["cut-after-4096-items-or-bytes"] = full[:len(full)-(len(full)-4500)/3]
+			if c.Thorough() {
+				resps["cut-short"] = full[:4200]
+			}
+		}
+		for rc, resp := range resps {
+			in := sx.L(types, funcs, sx.Str(f.name), rv, sx.Bytes(resp))
+			ans := s.ask(sx.L(sx.A("tl.req"), sx.A(p.pkg), sx.A(c09Camel(f.name)), rv, sx.Bytes(resp)))
+			c09Cache["c09.tlreq "+in.String()] = ans
+			c.Emit("c09.tlreq", in, "tlreq|threshold|"+strings.TrimPrefix(f.name, "x1.")+"|"+rc)
+			delete(c09Cache, "c09.tlreq "+in.String())
+			if ans.K == sx.KL && len(ans.List) == 3 && ans.List[2].K == sx.KB && !ans.List[2].Bool {
+				c.Fail("c09.tlreq", in, "c09-tl-request-decoder", "taggedRequestDecodeFunctions does not decode the payload of "+f.name+" back to the request")
+			}
+		}
+	}
+}
+
+func c09CountClass(n int) string {
+	switch {
+	case n < 4095:
+		return fmt.Sprint(n)
+	case n <= 4097:
+		return fmt.Sprint(n)
+	case n < 8192:
+		return "4098..8191"
+	case n <= 8193:
+		return fmt.Sprint(n)
+	}
+	return ">8193"
 }
